@@ -19,7 +19,7 @@ RULE = ("case 'rec' = (frame of 1..64 bytes with standard or extended id, 1..4 i
         "records (identifier, format, length) and the recorded scaling (Scapy scaling/offset, Canard factor/offset, FIBEX "
         "COMPU-RATIONAL-COEFFS, the CSV factor column; factors and offsets with up to 12 significant digits). In 40 % of the cases the "
         "matrix holds a second frame with signals of the same names at the same start bits (one bit wide, factor 7, value tables) and "
-        "signals of the frame under test carry value tables. Non-trivial = distinct case with a signal wider than one bit.")
+        "Frames longer than 8 bytes are flagged as CAN FD. signals of the frame under test carry value tables. Non-trivial = distinct case with a signal wider than one bit.")
 PARTIAL = ["the target tools are not installed: their reading conventions are the trusted Spec/Exports.lean",
            "FIBEX dynamic/static segment positions of multiplexed PDUs are not compared; compared are SIGNAL-INSTANCE and SWITCH "
            "position/byte order, CODING bit length and base data type (signedness), frame length and identifier",
@@ -46,6 +46,8 @@ def build(fd, arbid, ext):
             for k, v in d[12]:
                 s.add_values(k, v)
     fr.add_transmitter("E1")
+    if fd["size"] > 8:
+        fr.is_fd = True          # (a CAN FD frame; its declared length need not be one of the DLC steps)
     if fd.get("decoy"):
         # another frame of the matrix with signals of the same names at the same start bits, but one bit wide and scaled by 7:
         # what is recorded for a frame is that frame's business
